@@ -146,7 +146,7 @@ def p_fix_all(I, args, kwargs, node):
     o1 = z3.ForAll([i], z3.Implies(z3.And(0 <= i, i < applied.nz()), approved_term(I, flag(z3.Select(applied.arr, i)))))
     I.oblige("call-pre", f"fix_all.only-approved-changes(O1)@{getattr(node, 'lineno', '?')} [C04]", o1)
     I.oblige("call-pre", f"fix_all.session-may-write(O2)@{getattr(node, 'lineno', '?')} [C04]", gate_open(I))
-    I.oblige("call-pre", f"fix_all.before-the-unused-externals-scan@{getattr(node, 'lineno', '?')} [C08,C13]", z3.BoolVal(not I.ghost.get("unused_scanned", False)) if isinstance(I.ghost.get("unused_scanned", False), bool) else z3.Not(I.ghost["unused_scanned"].t))
+    I.oblige("call-pre", f"fix_all.before-the-unused-externals-scan@{getattr(node, "lineno", "?")} [C08,C13,C18]", z3.BoolVal(not I.ghost.get("unused_scanned", False)) if isinstance(I.ghost.get("unused_scanned", False), bool) else z3.Not(I.ghost["unused_scanned"].t))
     _inc(I, "n_fix_all")
     I.V.may_raise(I, "fix_all")
     return None
